@@ -8,6 +8,7 @@ import (
 	"os"
 	"path/filepath"
 	"strings"
+	"time"
 
 	"github.com/itchio/wharf/zzverif/vsched"
 
@@ -53,7 +54,19 @@ func healerScenarios(quick bool) []Scenario {
 	return out
 }
 
+// sliceDeadline gives one of n remaining scenarios its share of the time left.
+func sliceDeadline(global time.Time, n int) time.Time {
+	if global.IsZero() {
+		return global
+	}
+	if n < 1 {
+		n = 1
+	}
+	return time.Now().Add(time.Until(global) / time.Duration(n))
+}
+
 func schedSub(w *runner.W, subName, variant string, list []Scenario) {
+	left := 0
 	var sub *runner.Sub[Scenario]
 	sub = runner.NewSub(w, subName, func(sc Scenario, r *runner.Rec) {
 		p, err := prepare(sc, w.Scratch(), w.Seed)
@@ -101,7 +114,7 @@ func schedSub(w *runner.W, subName, variant string, list []Scenario) {
 		}
 		outcomes := map[string]int{}
 		reported := map[string]bool{}
-		st := vsched.Explore(opts, bodyFn, func(out vsched.Result) bool {
+		checkFn := func(out vsched.Result) bool {
 			o := out.Kind
 			if res.returned {
 				if res.err == nil {
@@ -125,7 +138,22 @@ func schedSub(w *runner.W, subName, variant string, list []Scenario) {
 				sub.Report(c, fp, "%s; schedule=%v", msg, out.Choices)
 			}
 			return true
-		})
+		}
+		var st vsched.Stats
+		completed, target := sc.Bound, sc.Bound
+		if w.Quick() {
+			st = vsched.Explore(opts, bodyFn, checkFn)
+		} else {
+			// thorough: iterative context bounding inside a time slice, so that one
+			// scenario cannot starve the others; the bound completed is reported
+			left--
+			opts.Deadline = sliceDeadline(w.Deadline(), left+1)
+			var unb bool
+			st, completed, unb = vsched.ExploreIterative(opts, 0, target, bodyFn, checkFn)
+			if unb {
+				completed = 99
+			}
+		}
 		if os.Getenv("VERIF_DEBUG") != "" {
 			fmt.Fprintf(os.Stderr, "scenario %+v: %+v outcomes=%v\n", sc, st, outcomes)
 		}
@@ -148,19 +176,33 @@ func schedSub(w *runner.W, subName, variant string, list []Scenario) {
 		sub.MaxNote("max_goroutines", st.MaxGoroutines)
 		sub.MaxNote("max_preemptions_used", st.MaxPreempts)
 		sub.MaxNote("max_choice_depth", st.MaxDepth)
-		if !split || w.Index() == 0 {
-			if !st.Complete {
-				sub.AddNote("scenarios_cut_by_deadline", 1)
-			} else {
-				sub.AddNote(fmt.Sprintf("scenarios_complete_bound_%d", sc.Bound), 1)
+		scName := fmt.Sprintf("%dfiles/%s/%s/cap%d/cancel=%v", len(sc.Files), sc.Damage, sc.Consumer, sc.Cap, sc.Cancel)
+		if w.Quick() {
+			if !split || w.Index() == 0 {
+				if !st.Complete {
+					sub.AddNote("scenarios_cut_by_deadline", 1)
+				} else {
+					sub.AddNote(fmt.Sprintf("scenarios_complete_bound_%d", sc.Bound), 1)
+				}
+			} else if !st.Complete {
+				sub.AddNote("shards_cut_by_deadline", 1)
 			}
-		} else if !st.Complete {
-			sub.AddNote("shards_cut_by_deadline", 1)
+		} else {
+			// minimum over the shards = bound completed for the scenario (99 = unbounded)
+			sub.MinNote("bound_completed:"+scName, completed)
+			if !st.Complete {
+				sub.Incomplete("some scenarios ended below their target bound, see bound_completed notes")
+			}
 		}
 		if st.MaxGoroutines < 2 {
 			r.Failf("harness:vacuous", "scenario never had two goroutines alive")
 		}
 	}, runner.Variant(variant))
+	for i, sc := range list {
+		if heavy(sc) || w.Owns(i) {
+			left++
+		}
+	}
 	if sub.Active() {
 		// heavy scenarios are explored by all workers together (level-2 subtree
 		// sharding); light ones are dealt round-robin
